@@ -121,7 +121,7 @@ def snap(it, c):
     bits = c.attrs['bits']
     nat = bits.native if isinstance(bits, Inst) else bits
     refs = c.attrs['refs']
-    return (nat.desc(), tuple(id(x) for x in refs.items), repr(c.attrs.get('_hash')), repr(c.attrs.get('type_')),
+    return (nat.desc(), tuple(id(x) for x in refs.items), repr(cm.cached(it, c, '_hash')), repr(c.attrs.get('type_')),
             repr(c.attrs.get('_data_bytes')))
 
 
